@@ -111,3 +111,149 @@ Proof. vm_compute. reflexivity. Qed.
 Example has_rasters_example : has_rasters (mkR [(key_adc_raster, [1 # 10000000]); (key_block_raster, [1 # 100000]);
   (key_grad_raster, [1 # 100000]); (key_rf_raster, [1 # 1000000])] [] [] [] [] [] [] [] [] [] []).
 Proof. unfold has_rasters. cbn. repeat split; discriminate. Qed.
+
+(* ---- the reader's first/last reconstruction scan (read_seq.py:256-327, Model/Scan.v) --------------------------
+   For every block table that is continuous (C05 invariant, exact: every shape-based gradient event starts at the
+   value the previous block ended at on its channel, at 0 when it has a delay, and an event ending before the
+   block end ends at 0) and for EVERY history of re-use of events (same id in several blocks, on several channels
+   of one block), the scan as the source has it now gives every event (first, last) = (the value it started at,
+   its own end value).  F is the map id -> first value; its existence is what continuity with re-use means. *)
+From PV Require Import Gen.GenScan Model.Scan Model.ScanGen Proofs.ScanProofs.
+
+Theorem first_last_reconstruction : forall lib F bs, Cont scan_eps lib F [0; 0; 0] bs ->
+  forall b id, In b bs -> In id (b_ids b) -> is_grad lib id ->
+  zlookup (snd (scan_file lib bs)) id = Some (F id, wl lib id).
+Proof.
+  unfold scan_file. change scan_sets_prev_on_done with true. change scan_fix_shared with true.
+  intros lib F. exact (first_last_reconstruction_gen scan_eps lib F).
+Qed.
+Print Assumptions first_last_reconstruction.
+
+Ltac solve_cont :=
+  repeat match goal with
+  | |- _ /\ _ => split
+  | |- Forall2 _ _ _ => constructor
+  | |- chan_ok _ _ _ _ _ _ => let g := fresh "g" in let H := fresh "H" in
+        intros g ? H ?; vm_compute in H; first [discriminate H|inversion H; subst; split; [reflexivity|let X := fresh "X" in intro X; vm_compute in X; first [discriminate X|reflexivity]]]
+  | |- True => exact I
+  | |- _ = _ => reflexivity
+  end.
+
+(* the scan as it was before repair 8ae658b: one event on two channels of block 1 (x and y ramp up together),
+   two different events in block 2 — the y event is reconstructed with first = 0 instead of 100000 *)
+Definition w_lib : list (Z * gev) :=
+  [(1%Z, mkG false 0 (1 # 2000) 100000); (2%Z, mkG false 0 (1 # 2000) 0); (3%Z, mkG false 0 (1 # 2000) 0)].
+Definition w_F (id : Z) : Q := if (id =? 1)%Z then 0 else 100000.
+Definition w_blocks : list sblock := [mkB (1 # 2000) [1; 1; 0]%Z; mkB (1 # 2000) [2; 3; 0]%Z].
+Theorem scan_shared_event_refuted : exists lib F bs,
+  Cont scan_eps lib F [0; 0; 0] bs /\
+  exists b id, In b bs /\ In id (b_ids b) /\ is_grad lib id /\
+  zlookup (snd (scan_blocks true false scan_eps lib bs)) id <> Some (F id, wl lib id).
+Proof.
+  exists w_lib, w_F, w_blocks. split.
+  - unfold w_blocks. cbn [Cont b_ids b_dur map]. solve_cont.
+  - exists (mkB (1 # 2000) [2; 3; 0]%Z), 3%Z. split; [right; left; reflexivity|]. split; [right; left; reflexivity|].
+    split; [split; [discriminate|eexists; split; reflexivity]|]. intro H. vm_compute in H. discriminate H.
+Qed.
+Print Assumptions scan_shared_event_refuted.
+
+(* the variant that does not refresh the running value at an already reconstructed event:
+   ramp-up / plateau A / ramp-down / the same ramp-up again / plateau B — plateau B gets first = 0 *)
+Definition v_lib : list (Z * gev) :=
+  [(1%Z, mkG false 0 (1 # 2000) 100000); (2%Z, mkG false 0 (1 # 1000) 100000); (3%Z, mkG false 0 (1 # 2000) 0);
+   (4%Z, mkG false 0 (3 # 2000) 100000)].
+Definition v_F (id : Z) : Q := if (id =? 1)%Z then 0 else 100000.
+Definition v_blocks : list sblock :=
+  [mkB (1 # 2000) [1; 0; 0]%Z; mkB (1 # 1000) [2; 0; 0]%Z; mkB (1 # 2000) [3; 0; 0]%Z; mkB (1 # 2000) [1; 0; 0]%Z;
+   mkB (3 # 2000) [4; 0; 0]%Z].
+Theorem scan_skip_reconstructed_refuted : exists lib F bs,
+  Cont scan_eps lib F [0; 0; 0] bs /\
+  exists b id, In b bs /\ In id (b_ids b) /\ is_grad lib id /\
+  zlookup (snd (scan_blocks false true scan_eps lib bs)) id <> Some (F id, wl lib id).
+Proof.
+  exists v_lib, v_F, v_blocks. split.
+  - unfold v_blocks. cbn [Cont b_ids b_dur map]. solve_cont.
+  - exists (mkB (3 # 2000) [4; 0; 0]%Z), 4%Z. split; [do 4 right; left; reflexivity|]. split; [left; reflexivity|].
+    split; [split; [discriminate|eexists; split; reflexivity]|]. intro H. vm_compute in H. discriminate H.
+Qed.
+Print Assumptions scan_skip_reconstructed_refuted.
+
+(* the same two histories are reconstructed correctly by the scan as it is now *)
+Example scan_now_on_witnesses :
+  zlookup (snd (scan_file w_lib w_blocks)) 3%Z = Some (100000, 0) /\ zlookup (snd (scan_file v_lib v_blocks)) 4%Z = Some (100000, 100000).
+Proof. split; vm_compute; reflexivity. Qed.
+
+(* ---- get_block level (Model/Decode.v): what a block decodes to, original vs written-and-re-read ------------------
+   Partial in this sense: the decoding of one event from its library row and shape rows is modelled (decompression,
+   amplitude scaling, trapezoid fields); the assembly of a whole block from the block table, time shapes/rasters and
+   the RF phase factor exp(2 pi i phase) are not.  Hypothesis shape_printable: the packed samples are decimals that
+   '%.9g' prints exactly — every sample of a shape that compress_shape stored compressed (multiples of 1e-7 below
+   100, run lengths below 10^9: lemmas qv_printable, cnt_printable); raw-stored short shapes need not be. *)
+From PV Require Import Gen.GenShape Model.Shape Model.Decode Proofs.ShapeProofs Proofs.DecodeProofs.
+
+Definition grad_amp_col : col := nth 1 sec_grad (1, 0%Z, 0%Z, 1).
+Definition rf_amp_col : col := nth 1 sec_rf (1, 0%Z, 0%Z, 1).
+Example amp_cols_are_6_digits :
+  is_sig_col grad_amp_col = true /\ c_fmt grad_amp_col = 6%Z /\ is_sig_col rf_amp_col = true /\ c_fmt rf_amp_col = 6%Z.
+Proof. repeat split; vm_compute; reflexivity. Qed.
+
+(* the normalised shape decodes to the same samples before and after the file *)
+Theorem C01_shape_decoding_unchanged : forall sh y, shape_printable sh -> decode_shape sh = Some y ->
+  exists y', decode_shape (read_shape (write_shape sh)) = Some y' /\ Forall2 Qeq y y'.
+Proof. exact decode_shape_reread. Qed.
+Print Assumptions C01_shape_decoding_unchanged.
+
+(* gradient waveform / RF magnitude: every decoded sample within 5e-6 relative (half a unit of the 6th digit of
+   the amplitude) of the decoded sample of the original block *)
+Theorem C01_getblock_wave_partial : forall rfr c amp sh w,
+  is_sig_col c = true -> shape_printable sh -> decode_wave amp sh = Some w ->
+  exists w', decode_wave (rcol c (wcol rfr c amp)) (read_shape (write_shape sh)) = Some w' /\
+             Forall2 (fun a b => Qabs (b - a) <= (1 # 2) * p10 (1 - c_fmt c) * Qabs a) w w'.
+Proof. exact getblock_wave_roundtrip. Qed.
+Print Assumptions C01_getblock_wave_partial.
+
+(* composed with the shape codec bound of C14: distance of the re-read samples to the waveform amp * g that was
+   handed to add_block (g normalised, stored by compress_shape): amplitude rounding plus 5e-8 of full scale *)
+Theorem C01_getblock_vs_user_waveform_partial : forall rfr c amp id (g : list Q),
+  is_sig_col c = true ->
+  let cs := compress false g in
+  let sh := id :: inject_Z (Z.of_nat (num_samples cs)) :: cdata cs in
+  shape_printable sh ->
+  exists w', decode_wave (rcol c (wcol rfr c amp)) (read_shape (write_shape sh)) = Some w' /\
+             Forall2 (fun gi b => Qabs (b - amp * gi) <=
+                        Qabs amp * ((1 # 2) * p10 (1 - c_fmt c) * (Qabs gi + (5 # 100000000)) + (5 # 100000000))) g w'.
+Proof. exact getblock_vs_user_waveform. Qed.
+Print Assumptions C01_getblock_vs_user_waveform_partial.
+
+Theorem C01_getblock_trap : forall rfr id a r f fl d,
+  is_int (r * (1000000 # 1)) -> is_int (f * (1000000 # 1)) -> is_int (fl * (1000000 # 1)) -> is_int (d * (1000000 # 1)) ->
+  match decode_trap (read_row sec_trap (write_row rfr sec_trap [id; a; r; f; fl; d])) with
+  | Some t => Qabs (t_amp t - a) <= (1 # 2) * p10 (-5) * Qabs a /\
+              t_rise t == r /\ t_flat t == f /\ t_fall t == fl /\ t_delay t == d /\
+              Qabs (t_area t - a * (f + r / (2 # 1) + fl / (2 # 1))) <= (1 # 2) * p10 (-5) * Qabs (a * (f + r / (2 # 1) + fl / (2 # 1))) /\
+              Qabs (t_flat_area t - a * f) <= (1 # 2) * p10 (-5) * Qabs (a * f)
+  | None => False
+  end.
+Proof.
+  intros rfr id a r f fl d IR IF IFL ID.
+  apply (getblock_trap_roundtrip rfr id a r f fl d IR IF IFL ID). apply section_cols_ok. unfold all_sections. cbn [In]. tauto.
+Qed.
+Print Assumptions C01_getblock_trap.
+
+Theorem packed_values_printable : forall v n, (Z.abs v < 10 ^ 9)%Z -> (Z.of_nat n < 10 ^ 9)%Z ->
+  fmt_sig shape_sample_fmt (qv v) == qv v /\ fmt_sig shape_sample_fmt (cnt n) == cnt n.
+Proof. intros v n Hv Hn. split; [apply qv_printable; exact Hv|apply cnt_printable; exact Hn]. Qed.
+Print Assumptions packed_values_printable.
+
+(* non-vacuity: a ramp of 8 samples is stored compressed and its row is printable *)
+Example printable_example :
+  let cs := compress false [0; 1 # 8; 2 # 8; 3 # 8; 4 # 8; 5 # 8; 6 # 8; 7 # 8] in
+  cdata cs = [qv 0; qv 1250000; qv 1250000; cnt 7] /\
+  shape_printable (1 :: inject_Z (Z.of_nat (num_samples cs)) :: cdata cs).
+Proof.
+  cbv zeta. split; [vm_compute; reflexivity|].
+  assert (E : cdata (compress false [0; 1 # 8; 2 # 8; 3 # 8; 4 # 8; 5 # 8; 6 # 8; 7 # 8]) = [qv 0; qv 1250000; qv 1250000; cnt 7])
+    by (vm_compute; reflexivity).
+  rewrite E. cbn [shape_printable]. split; [eexists; reflexivity|].
+  repeat constructor; try (apply qv_printable; vm_compute; reflexivity); apply cnt_printable; vm_compute; reflexivity.
+Qed.
